@@ -17,7 +17,9 @@ ALPHA = [("s", "a", None, []), ("e", "a", None), ("s", "b", None, [("k", "v")]),
 # symbols used only in the random longer strings (they would blow up the exhaustive part)
 EXTRA = [("d", "\x0c"), ("d", "\x0b "), ("d", "\t\r"), ("d", "\xa0"), ("e", "rt", None), ("s", "template", None, []),
          ("e", "template", None), ("s", "textarea", None, []), ("e", "textarea", None), ("e", "[document]", None), ("s", "[document]", None, []), ("s", "[document]", "p", []),
-         ("s", "b", "q", []), ("e", "b", "q"), ("x", 6), ("x", 9)]
+         ("s", "b", "q", []), ("e", "b", "q"), ("x", 6), ("x", 9),
+         # names that differ only in case from a void / whitespace-preserving / container name: names are compared as given
+         ("s", "BR", None, []), ("e", "BR", None), ("s", "Pre", None, []), ("e", "Pre", None), ("s", "RT", None, []), ("s", "A", None, [])]
 # 'pre' is both whitespace-preserving and a string container here; 'a' is void
 CUSTOM = {"void": ["a"], "pw": ["b", "pre"], "containers": {"a": 8, "pre": 10}}
 # string containers whose class is a PreformattedString subclass (CData = 1, Comment = 4): the class of a piece of TEXT is
@@ -84,6 +86,15 @@ def check(ctx, cname, cfg, seqs):
         bad = T.walk_check(forest)
         if bad:
             ctx.fail(case, "built tree is not consistently linked: " + bad[0], bad[:5])
+        # which elements may be written as empty-element tags: all of them when the builder has no opinion (XML rules),
+        # otherwise exactly those whose name - as given - is in the builder's set
+        for o in forest.objs:
+            if isinstance(o, T.Tag) and not isinstance(o, T.BeautifulSoup):
+                want = True if cfg["void"] is None else (o.name in cfg["void"])
+                if bool(o.can_be_empty_element) != want:
+                    ctx.fail(case, "element <%s> has can_be_empty_element=%r; the configuration's empty-element set says %r" % (o.name, o.can_be_empty_element, want),
+                             o.can_be_empty_element, want, tag="void-flag")
+                    break
         if len(soup.tagStack) != 1 or soup.currentTag is not soup:
             ctx.fail(case, "elements left open at end of input", len(soup.tagStack), 1)
         if mres is not None:
@@ -122,7 +133,8 @@ def run(ctx):
                     seqs.append(list(combo))
         for _ in range(3000 if ctx.thorough else 500):
             seqs.append([ctx.rng.choice(alpha + EXTRA) for _ in range(ctx.rng.randint(5, 14))])
-        for combo in itertools.product(EXTRA[:4] + [("d", "x"), ("s", "pre", None, []), ("e", "pre", None), ("s", "b", None, []), ("e", "b", None)], repeat=3):
+        for combo in itertools.product(EXTRA[:4] + [("d", "x"), ("s", "pre", None, []), ("e", "pre", None), ("s", "b", None, []), ("e", "b", None),
+                                                    ("s", "BR", None, []), ("s", "Pre", None, []), ("s", "A", None, [])], repeat=3):
             seqs.append(list(combo))
         rootish = [("s", "[document]", None, []), ("e", "[document]", None), ("s", "[document]", "p", []), ("e", "[document]", "p"),
                    ("s", "a", None, []), ("e", "a", None), ("d", "x")]
